@@ -510,6 +510,23 @@ func ctrlAlphabet() []ctrlCall {
 		{"ConsumeByKey(a)", func(cr *concRun, st *ctrlState) *cOp {
 			return &cOp{Kind: "consumebykey", Key: []byte("a"), Off: klevdb.OffsetOldest, Max: 40}
 		}},
+		{"ConsumeByKey(a,next)", func(cr *concRun, st *ctrlState) *cOp {
+			return &cOp{Kind: "consumebykey", Key: []byte("a"), Off: st.next, Max: 40}
+		}},
+		{"ConsumeByKey(zz,head)", func(cr *concRun, st *ctrlState) *cOp {
+			return &cOp{Kind: "consumebykey", Key: []byte("zz"), Off: st.headFirst, Max: 40}
+		}},
+		{"Publish(key a)", func(cr *concRun, st *ctrlState) *cOp {
+			o := cr.pubOp(0, 1, false)
+			o.Pub[0].Key = []byte("a")
+			return o
+		}},
+		{"Publish(key zz)", func(cr *concRun, st *ctrlState) *cOp {
+			o := cr.pubOp(0, 2, false)
+			o.Pub[0].Key = []byte("zz")
+			o.Pub[1].Key = []byte("zz")
+			return o
+		}},
 		{"Get(reader)", off("get", func(st *ctrlState) int64 { return st.readerMid })},
 		{"Get(head)", off("get", func(st *ctrlState) int64 { return st.headMid })},
 		{"Get(newest)", off("get", func(st *ctrlState) int64 { return klevdb.OffsetNewest })},
@@ -574,6 +591,8 @@ func ctrlPrimaries(alpha []ctrlCall) []ctrlPrimary {
 		p("Consume(reader)", "gc", 1, "reader.getIndex.beforeLoad", "reader.afterIndex", "reader.getMessages.beforeLoad", "reader.afterGetMessages"),
 		p("Consume(head)", "below", 1, "reader.afterIndex", "reader.afterGetMessages"),
 		p("GC", "below", 1, "reader.gc.afterCloseIndex"),
+		p("ConsumeByKey(a,next)", "below", 1, "reader.consumeByKey.afterKeys"),
+		p("ConsumeByKey(zz,head)", "below", 1, "reader.consumeByKey.afterKeys"),
 	}
 }
 
